@@ -146,7 +146,7 @@ def _get_singularity(expr, V, U_offset, exp_function):
     # Create "wildcards", that act as catch-all (*) when matching expressions
     # https://docs.sympy.org/latest/modules/core.html#sympy.core.basic.Basic.match
     P_wildcard = Wild('P_wildcard', real=True, exclude=[V])
-    Z_wildcard = Wild('Z_wildcard', real=True)
+    Z_wildcard = Wild('Z_wildcard', real=True, exclude=[V])
     U_wildcard = Wild('U_wildcard', real=True, include=[V])
     SP_wildcard = Wild('SP_wildcard', real=True)
     singularities = []
